@@ -46,7 +46,7 @@ def _replay_e1(obj):
   print('arguments :', args, kwargs or '')
   print('reference :', of)
   print('converted :', og)
-  if obj.get('mode', {}).get('post') in ('opaque', 'contract'):
+  if obj.get('mode', {}).get('post') in ('opaque', 'contract', 'errors'):
     print('detail    :', e1.debug(obj['module_source'], obj['mode'], args))
   print('postcondition holds:', bool(same))
   return 0 if same else 1
